@@ -671,6 +671,27 @@ def run():
             P.Step("select", "select {%s}" % ", ".join("%s.%s" % p_ for p_ in picks), "TSelect [%s]" % "; ".join("(None, %s)" % qcol(*p_) for p_ in picks), final=True)],
             True, [c for _, c in picks], {"final_select": True, "key_pos": None})
         cases.append((f38, [P.gen_instance(rng, max_rows=5, min_rows=3, extra=("zz",))]))
+    # F49: `sort (computed key) | take | more` and `sort {k} | take | select !{k} | more` without a closing select (the star stream
+    # judges them on the dialects that can exclude)
+    for variant in ("helper", "excluded"):
+        for _ in range(2):
+            kc = rng.choice(["c", "b"])
+            if variant == "helper":
+                keys = [(True, ("bin", "Add", ("col", None, kc), ("lit", 3))), (True, ("col", None, "id"))]
+            else:
+                keys = [(False, ("col", None, "id"))]
+            st_ = [P.Step("sort", "sort %s" % P.prql_keys(keys), "TSort %s" % P.coq_keys(keys), keys=keys),
+                   P.Step("take", "take 2..4", "TTake (Some 2) (Some 4)", rng=(2, 4))]
+            if variant == "excluded":
+                st_.append(P.Step("exclude", "select !{id}", "TExclude [(None, %d%%N)]" % P.nid("id"), ex=["id"]))
+            if rng.random() < 0.5:
+                f_ = ("bin", "Or", ("bin", "Ge", ("col", None, "a"), ("lit", -1)), ("isnull", ("col", None, "a"), False))
+                st_.append(P.Step("filter", "filter %s" % P.prql_expr(f_), "TFilter %s" % P.coq_expr(f_)))
+            else:
+                nm_ = g.newname()
+                st_.append(P.Step("derive", "derive {%s = %s}" % (nm_, kc), "TDerive [(Some %d%%N, ECol None %d%%N)]" % (P.nid(nm_), P.nid(kc))))
+            f49 = P.Program(st_, False, None, {"final_select": False, "order": None, "key_pos": None})
+            cases.append((f49, [P.gen_instance(rng, max_rows=6, min_rows=5, extra=("zz",))]))
     # hand-built programs of the shared relational findings (vplib/rel/e2e.directed_known): the ones that break the SQL
     # (dangling names) are C05 failures too; the ones that only change row VALUES are not judged here (judge_cols)
     for fid, pg, inst in E.directed_known(rng):
